@@ -193,7 +193,8 @@
       ; nested fields and the literal text of `:{w}.{p}f`.
       (+ " :" #* (lfor part (cut x 1 None)
         (if (isinstance part hy.models.String)
-          (str part)
+          ; Literal braces are written doubled, as in the main text.
+          (.replace (.replace (str part) "{" "{{") "}" "}}")
           (hy-repr part))))
       "")
     "}")))
